@@ -13,6 +13,10 @@ type Timer struct {
 }
 
 func (t *Timer) Refresh() *Timer {
+	if t == nil {
+		// like ClearTimeout(nil): a heartbeat can arrive before the session has armed its timers
+		return nil
+	}
 	defer t.timer.Reset(t.sleep)
 
 	if !t.timer.Stop() {
